@@ -36,6 +36,11 @@ import (
 	"golang.org/x/net/context"
 )
 
+const (
+	headerRange   = "Range"
+	headerIfRange = "If-Range"
+)
+
 // parseCacheControlSeconds parse the delta-seconds of cache control directive,
 // the value may be a quoted-string, invalid value is treated as 0
 func parseCacheControlSeconds(value string) int {
@@ -118,6 +123,7 @@ func NewProxy(s *server) elton.Handler {
 
 		reqHeader := c.Request.Header
 		var ifModifiedSince, ifNoneMatch string
+		var rangeValue, ifRange string
 		status := getCacheStatus(c)
 		// 针对fetching的请求，由于其最终状态未知，因此需要删除有可能导致304的请求，避免无法生成缓存
 		if status == cache.StatusFetching {
@@ -128,6 +134,15 @@ func NewProxy(s *server) elton.Handler {
 			}
 			if ifNoneMatch != "" {
 				reqHeader.Del(elton.HeaderIfNoneMatch)
+			}
+			// range请求也需要删除，否则upstream返回206，部分数据会被缓存并响应给其它客户端
+			rangeValue = reqHeader.Get(headerRange)
+			ifRange = reqHeader.Get(headerIfRange)
+			if rangeValue != "" {
+				reqHeader.Del(headerRange)
+			}
+			if ifRange != "" {
+				reqHeader.Del(headerIfRange)
 			}
 		}
 
@@ -182,6 +197,12 @@ func NewProxy(s *server) elton.Handler {
 		}
 		if ifNoneMatch != "" {
 			reqHeader.Set(elton.HeaderIfNoneMatch, ifNoneMatch)
+		}
+		if rangeValue != "" {
+			reqHeader.Set(headerRange, rangeValue)
+		}
+		if ifRange != "" {
+			reqHeader.Set(headerIfRange, ifRange)
 		}
 		if acceptEncodingChanged {
 			reqHeader.Set(elton.HeaderAcceptEncoding, acceptEncoding)
